@@ -53,6 +53,12 @@ AlphaArgsF == AlphaOf([Query |-> {"g", "o", "on"}, T |-> {"g", "s"}])
 \* a nullable variable with a default is allowed at a non-null argument; an explicit null then
 \* fails the argument coercion of that field at run time
 ArgOptsFail == [ f |-> {<<>>}, g |-> {<<ArgV("r", Lit("var", "y"))>>, <<ArgV("r", Lit("int", 2))>>} ]
+AlphaSched == AlphaOf([Query |-> {"o", "lo", "s"}, T |-> {"s", "o"}])
+AlphaSchedF == AlphaOf([Query |-> {"o", "on", "lnn", "s"}, T |-> {"s", "sn"}])
+AlphaSchedM == AlphaOf([Mutation |-> {"m1", "m2", "m3", "m4", "ml"}, T |-> {"s", "sn"}])
+AlphaSchedM2 == AlphaOf([Mutation |-> {"m1", "m3", "ml"}, T |-> {"s"}])
+AllFieldNames == UNION {DOMAIN TypesExec[tn].fields : tn \in DOMAIN TypesExec}
+SomeFieldNames == {"o", "sn", "m2", "m3", "lnn"}
 AlphaMut == AlphaOf([Mutation |-> {"m1", "m3", "ml"}, T |-> {"s", "o"}])
 
 \* ---- pick phase ------------------------------------------------------------------
